@@ -46,8 +46,8 @@ long w_n, w_k, w_bad, w_allow; int w_opt;
 
 #ifdef U_FIND_SHORT
 /* A short option letter is a non-NUL character: entries WITHOUT a short form carry
- * short_opt == 0 and must never be found (unit .nul asks for the NUL "letter", which is what
- * the parser does for a lone "-"). */
+ * short_opt == 0 and must never be found.  Unit .nul asks for the NUL "letter" (is_valid_option
+ * does that for a lone "-"): not found, one bad option. */
 #ifdef U_NUL
 static spif_int32_t find_short_option(char opt) CONTRACT_find_short_option(opt == 0)
 #else
